@@ -180,6 +180,9 @@ pub struct WorkerCtx {
     pub n: usize,
     pub seed: u64,
     pub known: Known,
+    /// crash journal: the case about to be evaluated is written here first, so that the parent can
+    /// report it when the worker process dies (abort, segfault, stack overflow)
+    pub journal: Option<String>,
 }
 impl WorkerCtx {
     /// share of `total` cases for this worker
@@ -338,6 +341,11 @@ where
         (out, fails)
     };
     let r = runner.run(&strat, |c| {
+        if let Some(j) = &w.journal {
+            if let Ok(js) = serde_json::to_string(&c) {
+                let _ = std::fs::write(j, format!("{{\"kind\":\"{}\",\"case\":{}}}", kind, js));
+            }
+        }
         let (out, fails) = eval(&c);
         let mut unknown: Vec<Fail> = vec![];
         {
@@ -480,7 +488,7 @@ pub fn run_check(prop: &dyn Prop, tier: Tier) -> i32 {
     let n = tier.pick(meta.workers_quick, meta.workers_thorough).max(1);
     let n = std::env::var("FBV_WORKERS").ok().and_then(|s| s.parse().ok()).unwrap_or(n);
     let exe = std::env::current_exe().expect("current_exe");
-    let tmpdir = format!("/var/tmp/fbv-par-{}", std::process::id());
+    let tmpdir = format!("/dev/shm/fbv-par-{}", std::process::id());
     let _ = std::fs::create_dir_all(&tmpdir);
     let mut children = vec![];
     for i in 0..n {
@@ -516,7 +524,28 @@ pub fn run_check(prop: &dyn Prop, tier: Tier) -> i32 {
             Some(st) => {
                 match std::fs::read_to_string(&out).ok().and_then(|s| serde_json::from_str::<WorkerResult>(&s).ok()) {
                     Some(r) => merged.merge(r),
-                    None => inconclusive.push(format!("worker {} ended with {:?} and no result", i, st)),
+                    None => {
+                        // the worker died: the journal holds the case it was evaluating
+                        let cur = std::fs::read_to_string(format!("{}.cur", out)).ok().and_then(|s| serde_json::from_str::<Value>(&s).ok());
+                        match cur {
+                            Some(v) => {
+                                use std::os::unix::process::ExitStatusExt;
+                                let how = match st.signal() {
+                                    Some(sig) => format!("signal-{}", sig),
+                                    None => format!("exit-{}", st.code().unwrap_or(-1)),
+                                };
+                                if merged.violation.is_none() {
+                                    merged.violation = Some(Violation {
+                                        sig: format!("crash/worker-died:{}", how),
+                                        msg: format!("the worker process died ({}) while evaluating this case (not shrunk)", how),
+                                        kind: v["kind"].as_str().unwrap_or("").to_string(),
+                                        case: v["case"].clone(),
+                                    });
+                                }
+                            }
+                            None => inconclusive.push(format!("worker {} ended with {:?} and no result", i, st)),
+                        }
+                    }
                 }
             }
         }
@@ -636,8 +665,10 @@ pub fn run_worker(prop: &dyn Prop, args: &[String]) -> i32 {
         n,
         seed,
         known: Known::load(),
+        journal: Some(format!("{}.cur", args[4])),
     };
     let res = prop.worker(&w);
+    let _ = std::fs::remove_file(format!("{}.cur", args[4]));
     let s = serde_json::to_string(&res).unwrap();
     out.write_all(s.as_bytes()).unwrap();
     0
